@@ -742,6 +742,45 @@ async def s_queue() -> List[str]:
     await asyncio.gather(w, waiting, return_exceptions=True)
     if q2._unfinished_tasks != 0:
         viol.append("a consumer cancelled while waiting marked something")
+    if not w.cancelled():
+        viol.append(f"a consumer cancelled while waiting for an item did not end cancelled: {w.exception()!r}")
+    # a consumer cancelled while WAITING must not mark the item another consumer is still working on
+    q4 = Queue()
+    q4.put_nowait("job")
+    in_block, leave = asyncio.Event(), asyncio.Event()
+
+    async def busy_consumer():
+        async with q4 as item:
+            in_block.set()
+            await leave.wait()
+
+    a = asyncio.create_task(busy_consumer())
+    await in_block.wait()
+
+    async def waiting_consumer():
+        async with q4 as item:
+            pass
+
+    b = asyncio.create_task(waiting_consumer())
+    await asyncio.sleep(0)
+    await asyncio.sleep(0)
+    b.cancel()
+    await asyncio.gather(b, return_exceptions=True)
+    j = asyncio.create_task(q4.join())
+    for _ in range(3):
+        await asyncio.sleep(0)
+    if j.done():
+        viol.append("join() returned while a consumer is still inside its block (a waiting consumer was cancelled meanwhile)")
+    if not b.cancelled():
+        viol.append(f"the waiting consumer that was cancelled ended with {b.exception()!r} instead of being cancelled")
+    leave.set()
+    res = await asyncio.gather(a, return_exceptions=True)
+    if isinstance(res[0], BaseException):
+        viol.append(f"the block of the working consumer ended with {res[0]!r}")
+    try:
+        await asyncio.wait_for(j, 0.2)
+    except asyncio.TimeoutError:
+        viol.append("join() hangs although the only item was taken and its block has exited")
     # unusual items (None, falsy values, equal items) and nested blocks in one task: every taken item is marked exactly once
     q3 = Queue()
     items = [None, 0, "", False, "same", "same", None]
